@@ -14,9 +14,9 @@ vars == <<b, rep, steps, probes>>
 
 Src(name, layout) == [name |-> name, layout |-> layout, sign |-> "plain", dec |-> "dot", header |-> TRUE, status |-> "present", delim |-> "comma"]
 Init == /\ b \in IF PairInit
-                  THEN {[sources |-> <<Src("Card", l), Src(nm, l)>>, rules |-> "rules", mode |-> "first_match", supp |-> FALSE, views |-> FALSE, xform |-> FALSE, cur |-> "absent", modeBogus |-> FALSE, mfMissing |-> FALSE, vf |-> "ok", year |-> "absent", out |-> "absent", split |-> FALSE] :
+                  THEN {[sources |-> <<Src("Card", l), Src(nm, l)>>, rules |-> "rules", mode |-> "first_match", supp |-> FALSE, views |-> FALSE, xform |-> FALSE, cur |-> "absent", modeBogus |-> FALSE, mfMissing |-> FALSE, vf |-> "ok", year |-> "absent", out |-> "absent", split |-> FALSE, removed |-> FALSE] :
                           l \in {"L1", "L2", "L4"}, nm \in {"Bank", "Card"}}
-                  ELSE {[sources |-> <<Src("Card", l)>>, rules |-> r, mode |-> "first_match", supp |-> FALSE, views |-> FALSE, xform |-> FALSE, cur |-> "absent", modeBogus |-> FALSE, mfMissing |-> FALSE, vf |-> "ok", year |-> "absent", out |-> "absent", split |-> FALSE] :
+                  ELSE {[sources |-> <<Src("Card", l)>>, rules |-> r, mode |-> "first_match", supp |-> FALSE, views |-> FALSE, xform |-> FALSE, cur |-> "absent", modeBogus |-> FALSE, mfMissing |-> FALSE, vf |-> "ok", year |-> "absent", out |-> "absent", split |-> FALSE, removed |-> FALSE] :
                           l \in {"L1", "L2", "L4"}, r \in {"none", "rules", "csv"}}
         /\ rep = Report(b) /\ steps = 0 /\ probes = [k \in 1..Len(Probes) |-> Explain(b, Probes[k])]
 
@@ -44,6 +44,7 @@ ChangeBudget ==
   \/ \E v \in {"absent", "y2024"} : Set([b EXCEPT !.year = v])
   \/ \E v \in {"absent", "custom"} : Set([b EXCEPT !.out = v])
   \/ \E v \in BOOLEAN : Set([b EXCEPT !.split = v])
+  \/ \E v \in BOOLEAN : Set([b EXCEPT !.removed = v])
   \/ (Len(b.sources) = 1 /\ \E l \in {"L1", "L2", "L4"}, nm \in {"Bank", "Card"} : Set([b EXCEPT !.sources = Append(@, Src(nm, l))]))
 Next == ChangeSource \/ ChangeBudget
 Spec == Init /\ [][Next]_vars
